@@ -93,13 +93,13 @@ func sq(s string) string { return "'" + strings.ReplaceAll(s, "'", `'\''`) + "'"
 // c28RunIn runs a (harness-written, trusted) script in-process in dir.
 func c28RunIn(dir string, script string, params []string) c28Out {
 	var res c28Out
+	var out, errb limitedBuf
 	res.panicked = safely(func() {
 		f, err := syntax.NewParser().Parse(strings.NewReader(script), "")
 		if err != nil {
 			res.errText = "parse: " + err.Error()
 			return
 		}
-		var out, errb limitedBuf
 		r, err := interp.New(
 			interp.StdIO(nil, &out, &errb),
 			interp.Dir(dir),
@@ -124,6 +124,9 @@ func c28RunIn(dir string, script string, params []string) c28Out {
 			}
 		}
 	})
+	if res.panicked != "" {
+		res.stdout, res.stderr = out.String(), errb.String()
+	}
 	return res
 }
 
@@ -270,34 +273,34 @@ func c28TieFP(c *Ctx, script string, args []string) {
 
 var c28PosixNames = []string{"allexport", "errexit", "noexec", "noglob", "nounset", "xtrace", "pipefail"}
 
-// c28TieParams applies interp.Params(args...) to a fresh Runner whose seven POSIX options are
-// preset to bits0.  stdoutSet=false reproduces New(Params(...)) without a StdIO option before it.
+// c28TieParams applies interp.Params(args...) to a Runner whose seven POSIX options are preset to
+// bits0.  stdoutSet=true: on a Runner made by New(StdIO(...)); stdoutSet=false: as an option of New
+// itself with no StdIO option before it (r.stdout is still nil while the option runs).
 func c28TieParams(c *Ctx, stdoutSet bool, bits0 string, args []string) {
 	got := ""
 	p := safely(func() {
 		var out bytes.Buffer
-		var opts []interp.RunnerOption
-		if stdoutSet {
-			opts = append(opts, interp.StdIO(nil, &out, io.Discard))
-		}
-		r, err := interp.New(opts...)
-		if err != nil {
-			got = "new-error"
-			return
-		}
+		var pre []interp.RunnerOption
 		for i, b := range bits0 {
 			flag := "+o"
 			if b == '1' {
 				flag = "-o"
 			}
-			if err := interp.Params(flag, c28PosixNames[i])(r); err != nil {
-				got = "preset-error"
+			pre = append(pre, interp.Params(flag, c28PosixNames[i]))
+		}
+		pre = append(pre, interp.Params("--", "KEEP"))
+		var r *interp.Runner
+		var err error
+		if stdoutSet {
+			r, err = interp.New(append([]interp.RunnerOption{interp.StdIO(nil, &out, io.Discard)}, pre...)...)
+			if err != nil {
+				got = "new-error"
 				return
 			}
+			err = interp.Params(args...)(r)
+		} else {
+			r, err = interp.New(append(pre, interp.Params(args...))...)
 		}
-		r.Params = []string{"KEEP"}
-		out.Reset()
-		err = interp.Params(args...)(r)
 		if err != nil {
 			msg := err.Error()
 			const pfx = "invalid option: "
@@ -329,13 +332,9 @@ func c28TieParams(c *Ctx, stdoutSet bool, bits0 string, args []string) {
 		}
 		// read the options back
 		var dump bytes.Buffer
-		if !stdoutSet {
-			interp.StdIO(nil, &dump, io.Discard)(r)
-		} else {
-			out.Reset()
-		}
+		interp.StdIO(nil, &dump, io.Discard)(r)
 		interp.Params("+o")(r)
-		text := dump.String() + out.String()
+		text := dump.String()
 		bits := ""
 		for _, n := range c28PosixNames {
 			switch {
@@ -610,6 +609,9 @@ func c28TieSliceElems(c *Ctx, n int, indexes []int, off, ln *int, positional boo
 	}
 	src := "\"${a[@]" + c28SliceSuffix(off, ln) + "}\""
 	vars := map[string]expand.Variable{"a": {Set: true, Kind: expand.Indexed, List: list, Indexes: indexes}}
+	if positional && (n == 0 || (off == nil && ln == nil)) {
+		return // without a slice, sliceElems does not prepend $0
+	}
 	if positional {
 		src = "\"${@" + c28SliceSuffix(off, ln) + "}\""
 		vars = map[string]expand.Variable{
@@ -887,7 +889,10 @@ func c28TieCase(c *Ctx, dir string, i int) {
 				}
 			}
 		} else {
-			script = genFrom(r, []string{"m", "f", "v", "a"}, 10)
+			script = "m" + genFrom(r, []string{"m", "f", "v", "a"}, 10)
+			if r.Bool() {
+				script = "f" + script[1:]
+			}
 		}
 		c28TieFP(c, script, args)
 		c.Case(fmt.Sprintf("fp/%s/%q", script, args), len(args) > 0, "tie:fp")
